@@ -42,6 +42,12 @@ def step (st : Unit) (j : Json) : Unit × List String :=
       let E : Env := { resolve := fun _ => if jBool v "keyfound" then some "K" else none, embeddedKey := fun _ => none,
                        verifies := fun _ _ _ => jBool v "verified", verifiesSplit := fun _ _ _ => false }
       parseJWT Facts.C17.supportedAlgs E info
+    | "jar" =>
+      let E : Env := { resolve := fun _ => if jBool v "keyfound" then some "K" else none, embeddedKey := fun _ => none,
+                       verifies := fun _ _ _ => jBool v "verified", verifiesSplit := fun _ _ _ => false }
+      let J : JarEnv := { clientIdMatches := jBool v "clientid", configOK := jBool v "configok",
+                          clientKey := fun _ => if jBool v "clientkey" then some "K" else none }
+      jarValidate Facts.C17.supportedAlgs E J info
     | "parsejws" =>
       let found := jBools v "keyfound"
       let ver := jBools v "verified"
